@@ -35,7 +35,7 @@ def load_known(pid):
             data = json.load(fh)
     except FileNotFoundError:
         return []
-    return [e for e in data.get("findings", []) if e.get("property") == pid]
+    return [e for e in data.get("findings", []) if e.get("property") == pid or pid in e.get("also_affects", ())]
 
 
 def active_known_ids(pid):
@@ -237,13 +237,16 @@ def known_witness_lines(mod, pid):
             continue
         w = e.get("witness")
         still = False
+        owner = mod
+        if e.get("property") != pid:
+            owner = __import__("props." + e["property"].lower(), fromlist=["x"])
         if w and "shape" in w:
             try:
-                still = replay_record(mod, w, with_known=False, verbose=False)
+                still = replay_record(owner, w, with_known=False, verbose=False)
             except Exception:  # noqa: BLE001
                 print("HARNESS-ERROR: known-finding witness replay crashed:", traceback.format_exc()[-400:])
         elif w and w.get("kind") == "native":
-            still = bool(getattr(mod, "NATIVE_WITNESSES")[w["program"]]())
+            still = bool(getattr(owner, "NATIVE_WITNESSES")[w["program"]]())
         if still:
             print(f"KNOWN-FINDING: property={pid} {e['what']}")
             seen.add(e["id"])
